@@ -234,7 +234,7 @@ def split_runs(rows, start_ev="reset"):
     """Split trace rows into (header rows, [run rows...]) by reset events."""
     head, runs, cur = [], [], None
     for r in rows:
-        if r.get("ev") == start_ev:
+        if r.get("ev") == start_ev or (isinstance(start_ev, (tuple, list, set)) and r.get("ev") in start_ev):
             cur = [r]
             runs.append(cur)
         elif cur is None:
